@@ -7,6 +7,11 @@
 //!   `greedy L T w…`     answer of `decode_greedy`
 //!   `beam B N L T w…`   answer of `decode_beam_nbest(beam_size=B, n_best=N)`
 //!   `best B L T w…`     answer of `decode_beam(beam_size=B)`
+//!   `greedyn L T w…`    `decode_greedy` on a matrix with NaN entries (written `n`); compared
+//!                       with the model over the NaN carrier (`cmp_nan_greater` semantics)
+//!   `# beamnan B N L T w…`  beam search on a matrix with NaN entries: not compared with the
+//!                       model (the sort uses `total_cmp`, which depends on the NaN sign bit);
+//!                       observed: no panic, pairwise distinct label sequences, count ≤ min(B,N)
 //! Answer: `panic`, `none` (empty list) or hypotheses joined by `|`, each
 //! `label@pos,…:score` with score `z` (−inf), the exact numerator
 //! `round(exp(score) * D^T)` when `Π_t Σ_l w[t][l] ≤ 4096`, else `-`.
@@ -396,6 +401,116 @@ fn run_matrix(out: &mut Out, rng: &mut Rng, m: &Mat, widths: &[usize]) {
     }
 }
 
+
+/// NaN cases: `nan[i]` marks entry `i` as NaN (alternating sign bits).
+fn run_nan(out: &mut Out, rng: &mut Rng, m: &Mat) {
+    if m.t == 0 || m.l == 0 {
+        return;
+    }
+    let n = m.t * m.l;
+    let mut nan = vec![false; n];
+    let mode = rng.below(3);
+    for i in 0..n {
+        nan[i] = match mode {
+            0 => rng.chance(1, 4),
+            1 => i / m.l == 0 || rng.chance(1, 8), // a whole row of NaN
+            _ => i == rng.usize_below(n) % n,
+        };
+    }
+    if !nan.iter().any(|&b| b) {
+        nan[rng.usize_below(n)] = true;
+    }
+    let mut x = m.tensor();
+    {
+        let mut k = 0;
+        for t in 0..m.t {
+            for l in 0..m.l {
+                if nan[t * m.l + l] {
+                    x[[t, l]] = if k % 2 == 0 { f32::NAN } else { -f32::NAN };
+                    k += 1;
+                }
+            }
+        }
+    }
+    let toks = hcommon::join(
+        (0..n).map(|i| if nan[i] { "n".to_string() } else { m.w[i].to_string() }),
+        " ",
+    );
+    let dec = CtcDecoder::new();
+    out.bucket("nan-matrix");
+    // greedy: compared with the model; independent oracle here
+    {
+        let req = format!("greedyn {} {} {}", m.l, m.t, toks);
+        match hcommon::catch(|| conv(&dec.decode_greedy(x.view()))) {
+            Ok(h) => {
+                // NaN beats every number; among NaNs the last wins; among numbers the first max.
+                let mut path = Vec::new();
+                for t in 0..m.t {
+                    let mut best = 0usize;
+                    for l in 1..m.l {
+                        let (bn, ln) = (nan[t * m.l + best], nan[t * m.l + l]);
+                        let greater = if ln { true } else if bn { false } else { m.at(t, l) > m.at(t, best) };
+                        if greater {
+                            best = l;
+                        }
+                    }
+                    path.push(best);
+                }
+                let exp_labels = collapse(&path);
+                let mut exp_pos = Vec::new();
+                for t in 0..m.t {
+                    if path[t] != 0 && (t == 0 || path[t - 1] != path[t]) {
+                        exp_pos.push(t as u32);
+                    }
+                }
+                let fail = if h.labels != exp_labels || h.pos != exp_pos {
+                    Some(format!(
+                        "greedy (NaN) labels {:?}@{:?}, collapsed arg-max path {:?}@{:?}",
+                        h.labels, h.pos, exp_labels, exp_pos
+                    ))
+                } else if !h.score.is_nan() {
+                    Some(format!("greedy (NaN) score {} is not NaN", h.score))
+                } else {
+                    None
+                };
+                let steps = hcommon::join(h.labels.iter().zip(&h.pos).map(|(l, p)| format!("{l}@{p}")), ",");
+                let ans = if h.score.is_nan() { format!("{steps}:nan") } else { show(m, &h) };
+                out.case(&req, &ans, fail.as_deref(), true);
+            }
+            Err(_) => out.case(&req, "panic", Some("decode_greedy panicked on a NaN input"), false),
+        }
+    }
+    // beam: observed only
+    for b in [1usize, 2, 3, 5, 12] {
+        let nb = 1 + rng.usize_below(b + 1);
+        let req = format!("# beamnan {b} {nb} {} {} {}", m.l, m.t, toks);
+        let r = hcommon::catch(|| {
+            dec.decode_beam_nbest(x.view(), b as u32, nb as u32).iter().map(conv).collect::<Vec<_>>()
+        });
+        let r2 = hcommon::catch(|| conv(&dec.decode_beam(x.view(), b as u32)));
+        match (r, r2) {
+            (Ok(hs), Ok(_)) => {
+                let mut fail = None;
+                let mut seen = HashSet::new();
+                for h in &hs {
+                    if !seen.insert(h.labels.clone()) {
+                        fail = Some(format!("duplicate label sequence {:?} (NaN input)", h.labels));
+                    }
+                }
+                if hs.len() > b.min(nb) || hs.is_empty() {
+                    fail = Some(format!("{} hypotheses for beam {b}, n_best {nb} (NaN input)", hs.len()));
+                }
+                out.bucket("nan-beam-ok");
+                out.case(&req, &format!("ok {}", hs.len()), fail.as_deref(), hs.len() >= 2);
+            }
+            _ => {
+                out.bucket("nan-beam-panic");
+                out.case(&req, "panic", Some("beam decoding panicked on a NaN input"), false)
+            }
+        }
+    }
+}
+
 fn gen_matrix(rng: &mut Rng, t: usize, l: usize, fam: usize) -> Mat {
     let n = t * l;
     let mut w = vec![0u64; n];
@@ -524,6 +639,9 @@ fn main() {
             ws.sort();
             ws.dedup();
             run_matrix(&mut out, &mut rng, &m, &ws);
+        }
+        if i % 5 == 0 {
+            run_nan(&mut out, &mut rng, &m);
         }
     }
 
